@@ -4,19 +4,46 @@ package pool
 
 import "github.com/protolambda/zrnt/eth2/beacon/common"
 
-// VerifSyncSnapshot exposes the sync-committee pool buffers to the verification harness (read-only use).
+// VerifSyncSnapshot exposes a copy of the sync-committee pool buffers to the verification harness.
 type VerifSyncSnapshot struct {
 	CurrentSlot                                 common.Slot
 	PrevMsgs, CurrentMsgs, NextMsgs             SyncCommitteeMessages
 	PrevContribs, CurrentContribs, NextContribs SyncCommitteeContributions
 }
 
+func verifCopyMsgs(m SyncCommitteeMessages) SyncCommitteeMessages {
+	if m == nil {
+		return nil
+	}
+	out := make(SyncCommitteeMessages, len(m))
+	for k, v := range m {
+		out[k] = v
+	}
+	return out
+}
+
+func verifCopyContribs(c SyncCommitteeContributions) SyncCommitteeContributions {
+	if c == nil {
+		return nil
+	}
+	out := make(SyncCommitteeContributions, len(c))
+	for root, bySub := range c {
+		cp := make(map[uint64][]*SubnetContrib, len(bySub))
+		for sub, list := range bySub {
+			cp[sub] = append([]*SubnetContrib(nil), list...)
+		}
+		out[root] = cp
+	}
+	return out
+}
+
+// VerifSnapshot copies the buffers under the pool lock (the copies can be read without further locking).
 func (sp *SyncCommitteePool) VerifSnapshot() VerifSyncSnapshot {
 	sp.Lock()
 	defer sp.Unlock()
 	return VerifSyncSnapshot{
 		CurrentSlot: sp.currentSlot,
-		PrevMsgs:    sp.prevMsgs, CurrentMsgs: sp.currentMsgs, NextMsgs: sp.nextMsgs,
-		PrevContribs: sp.prevContribs, CurrentContribs: sp.currentContribs, NextContribs: sp.nextContribs,
+		PrevMsgs:    verifCopyMsgs(sp.prevMsgs), CurrentMsgs: verifCopyMsgs(sp.currentMsgs), NextMsgs: verifCopyMsgs(sp.nextMsgs),
+		PrevContribs: verifCopyContribs(sp.prevContribs), CurrentContribs: verifCopyContribs(sp.currentContribs), NextContribs: verifCopyContribs(sp.nextContribs),
 	}
 }
